@@ -17,6 +17,6 @@ func init() {
 		registry2 = map[string]*target2{}
 		pkgOrder2 = nil
 		register2("t2", []string{"badWhile", "badParamWrite", "badShadow", "badMap", "badClosure", "badBound",
-			"badAlias", "badString", "badGoto", "badRangeWrite"})
+			"badAlias", "badString", "badGoto", "badRangeWrite", "badAliasInLoop"})
 	}
 }
